@@ -14,12 +14,8 @@ PROP = {
         "GunYu.Props.C14.resume_monotone",
     ],
     "gens": ["c17"],
-    # flush policy constants of the coordinator as the model has them (Model/Frontier.lean
-    # flushUnitThreshold / flushIntervalNs)
-    "expected_facts": {
-        "c14_flush_consts": {"bisyncFrontierFlushInterval": "100 * time.Millisecond",
-                             "bisyncFrontierFlushUnitThreshold": "512"},
-    },
+    # the flush policy constants (unit threshold, interval) are a tuning parameter: the model is parameterised
+    # by them (Model/Frontier.lean FlushPolicy, World.pol), the c14c run passes the code's values to the driver
     "harness": [
         {"name": "C14rebuild", "pkg": "./pkg/redis/checkpoint/", "test": "TestVerifC14Rebuild"},
         {"name": "C14", "pkg": "./syncer/", "test": "TestVerifC14"},
